@@ -13,7 +13,9 @@
    mtime, size, inode and mode imply equal content -- C13's subject).  Symbolic links are outside
    the model. *)
 From Coq Require Import List NArith Bool.
-From SV Require Import lib.Bytes gen.GenClean model.TrellisDD.
+From SV Require Import lib.Bytes.
+From SV Require Import gen.GenClean.
+From SV Require Import model.TrellisDD.
 Import ListNotations.
 Open Scope N_scope.
 
